@@ -39,9 +39,15 @@ def rank_spec(ctx, q, tails, e2, r):
     return ctx.any_(alts)
 
 
-def h_skeleton(ctx, m, n, give_to, rel, with_cap):
-    """matrix_skeleton on A := U diag(s) V (SVD contract: s descending >= 0)."""
-    U, V, k = _orth_svd(ctx, m, n)
+def h_skeleton(ctx, m, n, give_to, rel, with_cap, plain=False):
+    """matrix_skeleton on A := U diag(s) V (SVD contract: s descending >= 0).
+    plain: U, V identity blocks (three and more singular values at low cost: the
+    rank selection only reads the spectrum)."""
+    if plain:
+        k = min(m, n)
+        U, V = eye(ctx, m)[:, :k].copy(), eye(ctx, n)[:k, :].copy()
+    else:
+        U, V, k = _orth_svd(ctx, m, n)
     s = spectrum(ctx, k, positive=rel)
     A = U @ diag(ctx, s) @ V
     expect(ctx, 'svd', A, (U, s, V))
@@ -66,6 +72,32 @@ def h_skeleton(ctx, m, n, give_to, rel, with_cap):
         ctx.claim('left_factor_orthonormal_columns', ctx.all_eq(F.T @ F, eye(ctx, q)))
     ctx.claim('finite', finite(ctx, [F, G]))
     ctx.canary('canary', ctx.all_eq(F @ G, A * 2))
+
+
+def h_skeleton_antidiag(ctx, give_to):
+    """matrix_skeleton on the non-symmetric anti-diagonal matrix [[0, b], [c, 0]]
+    with b and c close (relative difference between 5e-6 and 1e-5) or far apart:
+    an almost symmetric square matrix is still factorised as it is."""
+    b = ctx.real('b')
+    c = ctx.real('c')
+    ctx.assume(ctx.gt(c, 0))
+    ctx.assume(ctx.gt(b, c))
+    ctx.assume(ctx.ge(b - c, c * ctx.const(5) / 10 ** 6), 'asymmetry visible to the float replay')
+    A = zeros(ctx, (2, 2))
+    A[0, 1] = b
+    A[1, 0] = c
+    e = ctx.real('e')
+    ctx.assume(ctx.gt(e, 0))
+    F, G = teneva.matrix_skeleton(A, e, give_to=give_to)
+    q = F.shape[1]
+    ctx.claim('shapes', F.shape == (2, q) and G.shape == (q, 2) and 1 <= q <= 2)
+    # singular values b > c: rank 1 iff c <= e; the best rank-1 approximation keeps b
+    ctx.claim('rank_is_smallest', ctx.any_([ctx.all_([q == 1, ctx.le(c, e)]), ctx.all_([q == 2, ctx.gt(c, e)])]))
+    best = A.copy()
+    if q == 1:
+        best[1, 0] = ctx.const(0)
+    ctx.claim('product_is_truncated_svd', ctx.all_eq(F @ G, best))
+    ctx.claim('finite', finite(ctx, [F, G]))
 
 
 def _orth_svd(ctx, m, n):
@@ -141,15 +173,23 @@ def superdiag(ctx, d, n):
     return Y, a
 
 
-def h_svd_superdiag(ctx, d, n, with_cap):
+def h_svd_superdiag(ctx, d, n, with_cap, pad=None):
+    """pad: extra zero slices per mode (non-uniform shapes, very tall / very wide
+    unfoldings; the spectrum of every unfolding stays {a_i})."""
     Y, a = superdiag(ctx, d, n)
+    shape = [n] * d
+    if pad:
+        shape = [n + p for p in pad]
+        Yp = zeros(ctx, tuple(shape))
+        Yp[tuple(slice(0, n) for _ in range(d))] = Y
+        Y = Yp
     e = ctx.real('e')
     ctx.assume(ctx.gt(e, 0))
     r = ctx.integer('r') if with_cap else None
     if with_cap:
         ctx.assume(ctx.ge(r, 1))
     Z = teneva.svd(Y, e, r if with_cap else 1.E+12)
-    ctx.claim('well_formed', well_formed(Z, [n] * d))
+    ctx.claim('well_formed', well_formed(Z, shape))
     ctx.claim('finite', finite(ctx, Z))
     ranks = [G.shape[2] for G in Z[:-1]]
     err2 = sumsq(ref_full(Z) - Y)
@@ -282,6 +322,13 @@ def instances(tier):
                 for cap in (False, True):
                     out.append({'func': 'h_skeleton', 'params': {
                         'm': m, 'n': n, 'give_to': give_to, 'rel': rel, 'with_cap': cap}})
+    for give_to in 'mlr':
+        out.append({'func': 'h_skeleton_antidiag', 'params': {'give_to': give_to}})
+    for m, n in [(3, 3), (4, 3), (3, 4)]:
+        for give_to in 'mlr':
+            for rel in (False, True):
+                out.append({'func': 'h_skeleton', 'params': {'m': m, 'n': n, 'give_to': give_to, 'rel': rel, 'with_cap': True,
+                                                             'plain': True}})
     for m, n in [(2, 2), (2, 3), (3, 2)]:
         for cap in (False, True):
             out.append({'func': 'h_matrix_svd', 'params': {'m': m, 'n': n, 'with_cap': cap}})
@@ -292,6 +339,10 @@ def instances(tier):
             if tier == 'quick' and n == 3 and cap:
                 continue
             out.append({'func': 'h_svd_superdiag', 'params': {'d': d, 'n': n, 'with_cap': cap}})
+    # non-uniform shapes: first unfolding 9 x 4 (very tall), 2 x 12 (very wide), middle one tall
+    for pad in ([7, 0, 0], [0, 0, 4], [2, 3, 0]):
+        for cap in (False, True):
+            out.append({'func': 'h_svd_superdiag', 'params': {'d': 3, 'n': 2, 'with_cap': cap, 'pad': pad}})
     for cap in ((False,) if tier == 'quick' else (False, True)):
         out.append({'func': 'h_svd_perm4', 'params': {'with_cap': cap, 'ordered': True}, 'opts': {'symbolic_signs': False}})
     if tier != 'quick':
